@@ -56,6 +56,11 @@ let () = Reg.register "c15.sets" (fun inp out ->
     | [A "ok"; sets; _] -> sets_verdict m (`Ok (get_list (get_list get_int) sets))
     | A "other-error" :: _ -> "bad:unexpected-error"
     | _ -> "bad:unparsable" in
+  (* side condition of the Coq theorems C15_sets_least_solution_partial / C15_self_complement_rejected: the generated
+     node list is well formed and the Tarjan output satisfies its contract (proved-sound checkers) *)
+  let verdict =
+    if verdict = "ok" && m.m_sets <> [] && not (Sets.sets_certb t vals m.m_sets m.m_inputs)
+    then "bad:closure-certificate-failed" else verdict in
   (model, verdict))
 
 (* end to end: %generate sets and afterErr through compiler.Compile (grammar.Grammar.Sets, IsRecovering) *)
